@@ -108,8 +108,8 @@ def add_marshal_contracts(w, targets):
             me = cx.old(cx.args['self'])
             ground_grammar(cx.ctx)
             sig = me.signature
-            req = [('required header field %s is set (constructor)' % name, z3.Not(getattr(me, name).none)) for name, code, required in attrs if required]
-            return req + [('counter-invariant: the next serial is positive', cx.old(GLOBALS).nextSerial >= 1),
+            # (that the fields the message type requires are set is NOT assumed: serialising without one must fail - postcondition)
+            return [('counter-invariant: the next serial is positive', cx.old(GLOBALS).nextSerial >= 1),
                     ('re-marshalling without a new serial needs the old one', z3.Or(cx.args['newSerial'].term, z3.Not(me.serial.none))),
                     ('a body accompanies its signature', z3.Implies(z3.And(z3.Not(sig.none), sig.val.term != sv('')), z3.Not(me.body.none))),
                     ('the body signature is a valid signature', z3.Implies(z3.Not(sig.none), MC.VSIG(sig.val.term))),
@@ -133,7 +133,7 @@ def add_marshal_contracts(w, targets):
                 ints = z3.If(fv.none, ints, z3.Concat(ints, z3.Unit(it)))
             return [codes, kinds, strs, ints]
 
-        def post(cx, mtype=mtype, expected_headers=expected_headers):
+        def post(cx, mtype=mtype, expected_headers=expected_headers, cls_attrs=attrs):
             old, new = cx.old(cx.args['self']), cx.new(cx.args['self'])
             ground_grammar(cx.ctx)
             le = old.endian == ord('l')
@@ -149,7 +149,9 @@ def add_marshal_contracts(w, targets):
             hs = new.headers.seqs
             V = seq_of(IntSort, [old.endian, z3.IntVal(mtype), flags, z3.IntVal(1), new.bodyLength, new.serial.val.term, list_id(hs)])
             newser = cx.args['newSerial'].term
-            return [('header-field list: exactly the set attributes, in table order, each [code, value]', z3.And([a == b for a, b in zip(hs, exp)])),
+            return [('a message that was serialised carries every header field its type requires',
+                     z3.And([z3.Not(getattr(old, name).none) for name, code, required in cls_attrs if required] or [z3.BoolVal(True)])),
+                    ('header-field list: exactly the set attributes, in table order, each [code, value]', z3.And([a == b for a, b in zip(hs, exp)])),
                     ('body: the marshalling of the body under its signature (little endian as marshal() is called), empty without a signature', new.rawBody == body),
                     ('declared body length is the length of the body', new.bodyLength == z3.Length(new.rawBody)),
                     ('fresh serial: the counter value, counter incremented', z3.Implies(newser, z3.And(z3.Not(new.serial.none), new.serial.val.term == cx.old(GLOBALS).nextSerial,
